@@ -2,6 +2,7 @@
 Model: spec/CpuKinds.tla (oracle relations + transcription of cpukinds.c), spec/MC_CpuKinds.tla (bounded model);
 binding: spec/TraceCpuKinds.tla, harness/hwv_cpukinds.c"""
 import os, random, json, glob, tarfile, re
+import concurrent.futures as cf
 import vlib
 
 # info arrays of the generators (names/values that the ranking heuristics look at, plus neutral ones)
@@ -15,6 +16,11 @@ CC = ("CoreType", "IntelCore")
 CX = ("CoreType", "Other")
 XS = ("Features", "a<b&c\"d'e f>")          # XML-special characters and a space
 XN = ("A b", "1")
+
+# the oracle: relations of the property only
+CFG_REL = "SPECIFICATION Spec\nCONSTANT Strict = FALSE\nPOSTCONDITION Accepted\nCHECK_DEADLOCK FALSE\n"
+# relations + "the constructive model mirrors the implementation" (a rejection under this one alone is a SPEC-DRIFT note)
+CFG_STRICT = "SPECIFICATION Spec\nCONSTANT Strict = TRUE\nPOSTCONDITION Accepted\nCHECK_DEADLOCK FALSE\n"
 
 SYNTH = {2: ["pu:2"], 3: ["pu:3"], 4: ["pu:4", "core:2 pu:2", "pack:2 core:2 pu:1"], 5: ["pu:5"],
          6: ["pu:6", "pack:2 core:3 pu:1", "core:3 pu:2", "[numa] pack:2 pu:3"], 7: ["pu:7"], 8: ["pack:2 core:2 pu:2", "pu:8", "numa:2 core:2 pu:2"]}
@@ -120,10 +126,17 @@ def bfs_configs(thorough):
                    maxreg=3, maxres=1, maxaux=0, maxerr=0, nstripes=8 if thorough else 128))
     # R: ranking: 3 PUs, forced efficiencies -1..2, frequency infos
     cs.append(dict(tag="R", na=4, ntopo=3, reg=all_masks(3), res=all_masks(3), forced=[-1, 0, 1, 2], infos=[[F1], [F2]],
-                   maxreg=3, maxres=1, maxaux=0, maxerr=0, nstripes=8 if thorough else 128))
-    # O: registrations outside the topology, error paths, dup / XML / refresh steps: 3 PUs + 1 outside atom, depth 2 + aux
+                   maxreg=3, maxres=1, maxaux=0, maxerr=0, nstripes=16 if thorough else 128))
+    # O: registrations outside the topology (atom 3 is the infinite tail), rejected calls, dup / XML / refresh steps
     cs.append(dict(tag="O", na=4, ntopo=3, reg=all_masks(4), res=all_masks(4), forced=[-1, 1], infos=[[F1], [F1, CA, F1]],
-                   maxreg=2, maxres=1, maxaux=1, maxerr=1, nstripes=4 if thorough else 32))
+                   maxreg=2, maxres=1, maxaux=1, maxerr=1, nstripes=8 if thorough else 64))
+    # D: deeper histories on 3 PUs: <= 4 registrations, <= 2 restricts
+    if thorough:
+        cs.append(dict(tag="D", na=4, ntopo=3, reg=all_masks(3), res=all_masks(3), forced=[-1, 0, 1], infos=[[F1], [CA]],
+                       maxreg=4, maxres=2, maxaux=0, maxerr=0, nstripes=128))
+    else:
+        cs.append(dict(tag="D", na=4, ntopo=3, reg=all_masks(3), res=all_masks(3), forced=[-1, 1], infos=[[F1]],
+                       maxreg=4, maxres=2, maxaux=0, maxerr=0, nstripes=64))
     return cs
 
 
@@ -180,12 +193,22 @@ def run(ctx, replay=None):
     ctx.build_lib()
     exe = ctx.cc("hwv_cpukinds.c", "hwv_cpukinds")
 
+    def env_of(text):
+        """a behaviour may start with '#env NAME=VALUE' lines (ignored by the recorder): environment of the recorder process"""
+        env = {}
+        for line in text.split("\n"):
+            if not line.startswith("#env "):
+                break
+            k, _, v = line[5:].partition("=")
+            env[k.strip()] = v.strip()
+        return env
+
     def replay_fn(text):
         p = ctx.path("replay-%d.beh" % random.randrange(1 << 30))
         open(p, "w").write(text)
         t = p + ".ndjson"
-        ctx.record(exe, p, t)
-        return ctx.validate("TraceCpuKinds", t, nshards=1)
+        ctx.record(exe, p, t, env=env_of(text))
+        return ctx.validate("TraceCpuKinds", t, cfg=CFG_REL, nshards=1)
 
     if replay:
         rej = replay_fn(open(replay).read())
@@ -200,35 +223,65 @@ def run(ctx, replay=None):
     behs = []
     exhaustive = []
 
-    # (1) exhaustive BFS of the bounded models: the property is an invariant of the model; one behaviour per (striped) edge
-    for c in bfs_configs(thorough):
+    # TLC jobs run side by side: (1) exhaustive BFS of the bounded models - the property is an invariant of the model, one
+    # behaviour per (striped) state-graph edge; (2) random walks of larger models (5-8 atoms, depth 8, dup / XML / refresh /
+    # rejected calls)
+    bcs = bfs_configs(thorough)
+    scs = sim_configs(thorough, rng)
+    per = max(2, vlib.NCPU // max(1, len(bcs)))
+
+    def bfs_job(c):
         ns = c["nstripes"]
-        stripe = ctx.seed % ns
-        out, st = ctx.tlc_mc("MC_CpuKinds_gen", cfg(c, ns, stripe, 0, True), tag="bfs_" + c["tag"],
-                             extra_modules=[("MC_CpuKinds_gen.tla", gen_module(c))], timeout=3000, workers=min(vlib.NCPU, 16))
+        return ctx.tlc_mc("MC_CpuKinds_gen", cfg(c, ns, ctx.seed % ns, 0, True), tag="bfs_" + c["tag"],
+                          extra_modules=[("MC_CpuKinds_gen.tla", gen_module(c))], timeout=3000, workers=per, heap="5g")
+
+    def sim_job(c):
+        num = 400 if thorough else 75          # per simulation worker
+        return ctx.tlc_mc("MC_CpuKinds_gen", cfg(c, 1, 0, 8, False), tag="sim_" + c["tag"], simulate="num=%d" % num, depth=10,
+                          extra_modules=[("MC_CpuKinds_gen.tla", gen_module(c))], timeout=900, workers=4, heap="2g")
+
+    with cf.ThreadPoolExecutor(max_workers=len(bcs) + 1) as ex:
+        bf_ = [ex.submit(bfs_job, c) for c in bcs]
+        sf_ = ex.submit(lambda: [sim_job(c) for c in scs])
+        bres = [f.result() for f in bf_]
+        sres = sf_.result()
+    ctx.tlc_stats["states"] = sum(r["distinct"] for r in ctx.tlc_stats["runs"])
+    ctx.tlc_stats["transitions"] = sum(r["generated"] for r in ctx.tlc_stats["runs"])
+
+    for c, (out, st) in zip(bcs, bres):
         if st["error"] or st["rc"] != 0:
             raise vlib.Infra("model check of MC_CpuKinds (%s) failed (model-level, not a violation): %s\n%s" % (c["tag"], st["error"], out[-2500:]))
-        exhaustive.append({"config": c["tag"], "states": st["distinct"], "edges": st["generated"]})
+        exhaustive.append({"config": c["tag"], "states": st["distinct"], "edges": st["generated"], "stripes": c["nstripes"]})
         synths = SYNTH[c["ntopo"]]
         amap = atom_map(c["ntopo"], c["na"])
         n0 = len(behs)
         for h in vlib.tlc_printed(out, "EDGE"):
             behs.append(beh_text(h, c, synths[len(behs) % len(synths)], amap))
-        vlib.log("bfs %s: %d states, %d edges, %d behaviours" % (c["tag"], st["distinct"], st["generated"], len(behs) - n0))
+        vlib.log("bfs %s: %d states, %d edges, %d behaviours (%.0fs)" % (c["tag"], st["distinct"], st["generated"], len(behs) - n0, st["wall_s"]))
 
-    # (2) random walks of larger models (6-8 atoms, depth 8, dup / XML / refresh / error steps)
     nsim0 = len(behs)
-    for c in sim_configs(thorough, rng):
-        num = 400 if thorough else 75          # per simulation worker
-        out, st = ctx.tlc_mc("MC_CpuKinds_gen", cfg(c, 1, 0, 8, False), tag="sim_" + c["tag"], simulate="num=%d" % num, depth=10,
-                             extra_modules=[("MC_CpuKinds_gen.tla", gen_module(c))], timeout=900, workers=4)
+    for c, (out, st) in zip(scs, sres):
         if st["error"]:
             raise vlib.Infra("simulation of MC_CpuKinds (%s) failed: %s\n%s" % (c["tag"], st["error"], out[-2500:]))
         synths = SYNTH[c["ntopo"]]
-        amap = atom_map(c["ntopo"], c["na"])
+        amap = atom_map(c["ntopo"], c["na"], wide=(len(behs) % 2 == 0))
         for h in vlib.tlc_printed(out, "SIM"):
             behs.append(beh_text(h, c, synths[len(behs) % len(synths)], amap))
-    vlib.log("simulation: %d behaviours" % (len(behs) - nsim0))
+    nsim1 = len(behs)
+    vlib.log("simulation: %d behaviours" % (nsim1 - nsim0))
+    if nsim1 == nsim0:
+        raise vlib.Infra("TLC simulation printed no behaviour")
+
+    # the call sequence of tests/hwloc/cpukinds.c (12 PUs), followed by an XML round trip
+    lo, hi = list(range(13)), list(range(12)) + [-1]
+    behs.append("\n".join([
+        reset_line("synth", "pack:4 pu:3", lo, hi),
+        "register -1 0 0 -1", "register 0 0 0 -1", "register 6 0 1 2 3 4 5 0 1 -1",
+        "register 6 0 1 2 3 4 5 1000 0 1 CoreType BigCore", "dup 0",
+        "register 3 6 7 8 10 0 1 CoreType SmallCore",
+        "register 6 5 6 7 8 9 10 -1 0 1 Features this,%20that%20and%20those",
+        "register 5 0 1 2 3 4 1000 0 -1", "register 1 5 100 0 -1", "register 3 6 7 8 10 0 -1", "register 2 9 10 1 0 -1",
+        "restrict 6 3 4 7 8 9 10 0", "xml 0", "xml 1", "dup 1", "refresh"]) + "\n")
 
     # (3) bundled inputs that carry cpukinds: shape after load, then the loaded kinds count as registrations
     nload0 = len(behs)
@@ -264,12 +317,46 @@ def run(ctx, replay=None):
     open(bf, "w").write("".join(behs))
     tf = ctx.path("trace.ndjson")
     ctx.record(exe, bf, tf)
-    rejs = ctx.validate("TraceCpuKinds", tf)
-    ctx.handle_rejections(rejs, behs, replay_fn)
+    # the walks once more with the XML backend that does not use libxml2 (chosen per process through the environment)
+    behs2 = ["#env HWLOC_LIBXML=0\n" + b for b in behs[nsim0:] if "\nxml " in b]
+    bf2 = ctx.path("behaviours-nolibxml.txt")
+    open(bf2, "w").write("".join(behs2))
+    tf2 = ctx.path("trace-nolibxml.ndjson")
+    ctx.record(exe, bf2, tf2, env={"HWLOC_LIBXML": "0"})
+    drift = []
+
+    def judge(rejs, blist):
+        """rejections of the strict pass: validate the behaviour again with the relations only; only that verdict counts"""
+        real = []
+        for r in rejs[:40]:
+            b = r.get("beh")
+            if b is None or not (0 <= b < len(blist)):
+                raise vlib.Infra("rejection without behaviour index: %r" % (r,))
+            acc, ev = ctx.accepted, ctx.events
+            again = replay_fn(blist[b])
+            ctx.accepted, ctx.events = acc, ev
+            if again:
+                real.append(r)
+            else:
+                drift.append((blist[b], r["line"]))
+                ctx.accepted += 1
+        return real
+
+    rejs = judge(ctx.validate("TraceCpuKinds", tf, cfg=CFG_STRICT, nshards=max(vlib.NCPU, os.path.getsize(tf) // (24 << 20))), behs)
+    rejs2 = judge(ctx.validate("TraceCpuKinds", tf2, cfg=CFG_STRICT, nshards=max(1, vlib.NCPU // 2)), behs2)
+    if len(rejs) + len(rejs2) > 10:
+        ctx.notes.append("%d rejected behaviours, only the first 10 were reported" % (len(rejs) + len(rejs2)))
+    ctx.handle_rejections(rejs[:10], behs, replay_fn)
+    ctx.handle_rejections(rejs2[:max(0, 10 - len(rejs))], behs2, replay_fn)
+    for text, line in drift[:5]:
+        print("SPEC-DRIFT: property=C15 the constructive model of cpukinds.c predicted another state (not a violation): %s" % line[:300])
+    if drift:
+        ctx.notes.append("SPEC-DRIFT on %d behaviours (constructive model differs from the implementation, relations hold); first: %s"
+                         % (len(drift), drift[0][0][:600]))
     return ctx.finish(
-        rule="behaviours = one per striped state-graph edge of three exhaustively model-checked bounded configurations of MC_CpuKinds "
+        rule="behaviours = one per striped state-graph edge of four exhaustively model-checked bounded configurations of MC_CpuKinds "
              "(P: all subsets of 4 PUs, <=3 registrations, <=1 restrict; R: 3 PUs with forced efficiencies -1..2 and frequency infos; "
-             "O: registrations outside the topology, rejected calls, dup/XML steps), TLC-simulated walks of depth 8 over 5-8 atoms with "
+             "O: registrations outside the topology, rejected calls, dup/XML/refresh steps; D: 3 PUs, <=4 registrations, <=2 restricts), TLC-simulated walks of depth 8 over 5-8 atoms with "
              "dup, XML export+import, refresh and rejected calls, and the bundled inputs that carry cpukinds followed by random steps; "
              "every behaviour was replayed on the rebuilt library (ASan+UBSan) and every recorded event validated by TLC against the "
              "relations of CpuKinds.tla; a behaviour is non-trivial when it contains at least one accepted registration",
@@ -280,4 +367,4 @@ def run(ctx, replay=None):
                      "required to produce a valid efficiency assignment",
                      "ENOMEM paths are not explored"],
         exhaustive=False,
-        extra={"behaviours": len(behs), "bounded_models": exhaustive})
+        extra={"behaviours": len(behs) + len(behs2), "bounded_models": exhaustive, "spec_drift": len(drift)})
